@@ -256,10 +256,6 @@ theorem log_cleanupContexts (s : BSt) : (Backend.cleanupContexts s).log = s.log 
   · rfl
   · exact log_cleanupGo _ _
 
-theorem processEvent_flush (s : BSt) (st : Stmt) (f : Nat) (hk : st.kind = .flush f) :
-    processEvent s st = (flushSinks s, none, some f) := by
-  unfold processEvent; rw [hk]
-
 /-- **The Flush step.** When the backend processes a Flush event (it is the minimum front), it flushes every
     active sink, pops the event, (reports failure counters, cleans up contexts) and only then raises the flag:
     the log at the moment of the raise ends with `mid ++ blk ++ (the log before)`, `blk` holding a
@@ -410,14 +406,14 @@ theorem resume_flag (s : BSt) (a : Nat) (x : Actor) (f : Nat) (hx : s.actor a = 
 
 /-- under the C05 hypotheses: once a popped event `st` is in the pop log, every record with a strictly smaller
     timestamp accepted by any context has been popped (a context that still holds records is registered) -/
-theorem earlier_popped {s : BSt} (hF : FI none [] s) (hG : GI s) (hp : GracePremise s) {i : Nat} {st : Stmt}
-    (hst : st ∈ (s.th i).popped) {k : Nat} {r : Stmt} (hr : r ∈ (s.th k).accepted)
+theorem earlier_popped {s : BSt} (hF : FI none [] s) (hG : GI s) (hg : s.cfg.grace ≠ 0)
+    (hr : s.cfg.refreshAfterSample = true) (hp : GracePremise s) {i : Nat} {st : Stmt}
+    (hst : st ∈ (s.th i).popped) {k : Nat} {r : Stmt} (hr' : r ∈ (s.th k).accepted)
     (hlt : r.ts < st.ts) : r ∈ (s.th k).popped := by
-  obtain ⟨fl, hI⟩ := hG
-  have o := hI.ord (premI_of_premise hp)
+  obtain ⟨fl, hI, o⟩ := hG.ord hg hr hp
   have hpl := hF.plog i st hst
-  rw [hF.cons k, List.append_assoc] at hr
-  rcases List.mem_append.mp hr with h | h
+  rw [hF.cons k, List.append_assoc] at hr'
+  rcases List.mem_append.mp hr' with h | h
   · exact h
   · exfalso
     have hk : k ∈ s.registry := hI.reg k (by
